@@ -237,7 +237,9 @@ func vtC15EncOp(op vtC15Op) []int64 {
 func vtC15ResList(v [][2]int64) corev1.ResourceList {
 	rl := corev1.ResourceList{}
 	for _, kv := range v {
-		rl[vtC15ResName(kv[0])] = *resource.NewQuantity(kv[1], resource.DecimalSI)
+		// wire amounts are milli-units (cpu 1500 = 1500m, memory likewise), so that quantities
+		// inside one whole-unit interval occur
+		rl[vtC15ResName(kv[0])] = *resource.NewMilliQuantity(kv[1], resource.DecimalSI)
 	}
 	return rl
 }
@@ -368,7 +370,7 @@ func vtC15Res(rl corev1.ResourceList) []int64 {
 	out := make([]int64, 0, vtC15Dims)
 	for k := int64(0); k < vtC15Dims; k++ {
 		if q, ok := rl[vtC15ResName(k)]; ok {
-			out = append(out, q.Value())
+			out = append(out, q.MilliValue())
 		} else {
 			out = append(out, -1)
 		}
@@ -462,12 +464,20 @@ func (g *vtC15GenState) live() []int64 {
 
 func (g *vtC15GenState) pick(xs []int64) int64 { return xs[g.r.Intn(len(xs))] }
 
+// milli-units: whole units x plus an offset inside the unit interval
+func (g *vtC15GenState) frac() int64 {
+	return []int64{0, 0, 0, 1, 200, 500, 999}[g.r.Intn(7)]
+}
+
 func (g *vtC15GenState) qty() int64 {
 	switch g.style {
 	case "large":
-		return vtQty(g.r, int64(1)<<40)
+		if g.r.Intn(3) == 0 {
+			return vtQty(g.r, int64(1)<<40)
+		}
+		return vtQty(g.r, int64(1)<<30)*1000 + g.frac()
 	}
-	return int64(g.r.Intn(13))
+	return int64(g.r.Intn(13))*1000 + g.frac()
 }
 
 func (g *vtC15GenState) keyset() []int64 {
@@ -490,10 +500,10 @@ func (g *vtC15GenState) fresh(parent int64) vtC15Payload {
 		// uniform dimensions, roomy parents, small leaves: re-parenting is usually admissible
 		p.isParent = r.Intn(4) != 0
 		for k := int64(0); k < 2; k++ {
-			p.max = append(p.max, [2]int64{k, 100})
-			mn := int64(r.Intn(3))
+			p.max = append(p.max, [2]int64{k, 100000})
+			mn := int64(r.Intn(3))*1000 + g.frac()
 			if p.isParent {
-				mn = int64(6 + r.Intn(10))
+				mn = int64(6+r.Intn(10))*1000 + g.frac()
 			}
 			if room, ok := g.room(parent, -5, k); ok && room < mn && r.Intn(6) != 0 {
 				mn = room
@@ -527,7 +537,7 @@ func (g *vtC15GenState) fresh(parent int64) vtC15Payload {
 	for _, k := range keys {
 		mx := g.qty()
 		if r.Intn(3) != 0 {
-			mx += 6
+			mx += 6000
 		}
 		p.max = append(p.max, [2]int64{k, mx})
 		if r.Intn(5) != 0 {
@@ -548,8 +558,13 @@ func (g *vtC15GenState) fresh(parent int64) vtC15Payload {
 					continue // the parent declares no min here
 				}
 			}
-			if r.Intn(25) == 0 {
-				mn = mx + 1
+			switch r.Intn(40) {
+			case 0:
+				mn = mx + 1 // above max, usually inside the same whole-unit interval
+			case 1:
+				mn = mx + 300
+			case 2:
+				mn = mx + 1000
 			}
 			p.min = append(p.min, [2]int64{k, mn})
 		}
@@ -790,16 +805,29 @@ func (g *vtC15GenState) mutate(name int64, old vtC15Payload) vtC15Payload {
 				p.ns = []int64{int64(1000 + r.Intn(4))}
 			}
 		case 4, 5, 6: // change a min
+			if len(p.min) > 0 && p.plabel > 0 && r.Intn(2) == 0 {
+				// exactly what the brothers leave of the parent's min, or just above it
+				j := r.Intn(len(p.min))
+				if room, ok := g.room(p.plabel, name, p.min[j][0]); ok {
+					p.min[j][1] = room + []int64{0, 0, 1, 300, 1000}[r.Intn(5)]
+					for _, kv := range p.max {
+						if kv[0] == p.min[j][0] && kv[1] < p.min[j][1] && r.Intn(8) != 0 {
+							p.min[j][1] = kv[1]
+						}
+					}
+					continue
+				}
+			}
 			if len(p.min) > 0 {
 				j := r.Intn(len(p.min))
 				switch r.Intn(4) {
 				case 0:
 					p.min[j][1] = g.qty()
 				case 1:
-					p.min[j][1]++
+					p.min[j][1] += []int64{1, 300, 1000}[r.Intn(3)]
 				case 2:
-					if p.min[j][1] > 0 {
-						p.min[j][1]--
+					if d := []int64{1, 300, 1000}[r.Intn(3)]; p.min[j][1] >= d {
+						p.min[j][1] -= d
 					}
 				default:
 					p.min[j][1] = p.min[j][1] / 2
@@ -810,9 +838,17 @@ func (g *vtC15GenState) mutate(name int64, old vtC15Payload) vtC15Payload {
 		case 7: // change a max
 			if len(p.max) > 0 {
 				j := r.Intn(len(p.max))
-				if r.Intn(2) == 0 {
-					p.max[j][1] += int64(r.Intn(4))
-				} else {
+				switch r.Intn(3) {
+				case 0:
+					p.max[j][1] += int64(r.Intn(4)) * 1000
+				case 1:
+					// just below / above the min of the same dimension
+					for _, kv := range p.min {
+						if kv[0] == p.max[j][0] {
+							p.max[j][1] = kv[1] + []int64{-300, -1, 0, 1}[r.Intn(4)]
+						}
+					}
+				default:
 					p.max[j][1] = g.qty()
 				}
 			}
@@ -1002,12 +1038,12 @@ func vtC15Gen(r *rand.Rand, i int) (string, []int64) {
 func TestVerifC15(t *testing.T) { vtMain(t, "C15", vtC15Gen, vtC15Exec) }
 
 // ---- exhaustive stream: case i is the i-th request sequence (shortest first) over the names
-// {3,4,5}: create with parent in {root, the two other names} x is-parent x min in {1,2} (one
-// dimension, max 2); update = the stored object with one field changed (parent / is-parent /
+// {3,4,5}: create with parent in {root, the two other names} x is-parent x min in {600m,1200m} (one
+// dimension, in milli-units: min 600m or 1200m, max 1200m); update = the stored object with one field changed (parent / is-parent /
 // min); delete. Sequences start with a create (on the empty record the others are no-ops). ----
 
 func vtC15ExhPayload(parent int64, isParent bool, mn int64) vtC15Payload {
-	return vtC15Payload{plabel: parent, isParent: isParent, min: [][2]int64{{0, mn}}, max: [][2]int64{{0, 2}}}
+	return vtC15Payload{plabel: parent, isParent: isParent, min: [][2]int64{{0, 600 * mn}}, max: [][2]int64{{0, 1200}}}
 }
 
 func vtC15ExhOthers(name int64) [2]int64 {
@@ -1049,7 +1085,7 @@ func vtC15ExhOp(c int, store map[int64]vtC15Payload) vtC15Op {
 		case 3:
 			nw.isParent = !nw.isParent
 		default:
-			nw.min = [][2]int64{{0, int64(u - 3)}}
+			nw.min = [][2]int64{{0, 600 * int64(u-3)}}
 		}
 		return vtC15Op{kind: 1, name: name, oldP: old, newP: nw}
 	}
